@@ -407,12 +407,21 @@ def run_sched(first, steps, flagged):
             w.recycle(history.PID_POOL[0])
             if stale.is_running():
                 raise Violation("sched-setup", "recycled PID not detected")
+        stale1 = None
+        if flagged == 2:
+            # a second recycled PID whose stale cached object is asked
+            # is_running() by thread 1 WHILE thread 0 iterates
+            stale1 = psutil._pmap.get(history.PID_POOL[1])
+            w.recycle(history.PID_POOL[1])
         listing = sorted(k.procs)
         sched = detsched.Scheduler(os.path.dirname(psutil.__file__))
 
         def one(i):
             def run():
-                out[i] = [p.pid for p in psutil.process_iter()]
+                if flagged == 2 and i == 1:
+                    out[i] = stale1.is_running()
+                else:
+                    out[i] = [p.pid for p in psutil.process_iter()]
             return run
 
         try:
@@ -428,6 +437,22 @@ def run_sched(first, steps, flagged):
                 f"flagged={flagged}): {e!r} "
                 + "".join(traceback.format_exception(type(e), e, e.__traceback__))[-500:]
                 + f" sites {sites}")
+        if flagged == 2:
+            if out[1] is not False:
+                raise Violation("is_running", f"stale object of a recycled PID: is_running() = {out[1]!r}")
+            # reuse was detected: whatever the interleaving, the stale object
+            # must be replaced by a fresh one (two passes: the pass that
+            # notices may omit the PID - recorded known finding)
+            list(psutil.process_iter())
+            final = {p.pid: p for p in psutil.process_iter()}
+            got1 = final.get(history.PID_POOL[1])
+            if got1 is stale1 or got1 is None or not got1.is_running():
+                raise Violation(
+                    "stale-object-yielded-again",
+                    f"thread 1 found PID {history.PID_POOL[1]} recycled (is_running() False) while thread 0 "
+                    f"(pre-empted: thread {first} after {steps} lines) was iterating; later passes yield "
+                    f"{'the same stale object' if got1 is stale1 else repr(got1)} for it; sites {sites}")
+            return
         for i in (0, 1):
             got = out[i]
             if got != sorted(got) or len(set(got)) != len(got) or set(got) - set(listing):
@@ -444,7 +469,7 @@ def run_sched(first, steps, flagged):
 def sched_tier(tier, seed, stats):
     bound = 30 if tier == "quick" else 250
     n = 0
-    for flagged in (False, True):
+    for flagged in (False, True, 2):
         for first in (0, 1):
             for steps in range(1, bound):
                 case = {"sched": [first, steps, flagged]}
